@@ -68,6 +68,7 @@ def check(case, res):
     if n["kind"] not in ("region", "text", "br") and n["begin"] is not None and n["end"] is not None and n["begin"] >= n["end"]:
       feats.add("has-inverted-interval")
   res.label(*feats)
+  sig = [None]
   for t in times:
     res.evals += 1
     res.labels["probe:boundary" if t in boundary else "probe:between"] += 1
@@ -78,6 +79,17 @@ def check(case, res):
       res.crash(e)
       continue
     compare(spec, snaps, isd, res)
+    # the same snapshot through the accelerated path must present the same content (regions without content may be absent)
+    try:
+      if sig[0] is None:
+        sig[0] = ISD.significant_times(doc)
+      isd_c = ISD.from_model(doc, t, sig[0])
+    except Exception as e:  # pylint: disable=broad-except
+      res.crash(e, "cached:")
+      continue
+    before = len(res.fails)
+    compare(spec, snaps, isd_c, res)
+    res.fails[before:] = [("cached:" + b, d) for b, d in res.fails[before:]]
     presented = sum(len([l for l in sn.leaves if l.kind == "br" or nonspace(l.text)]) for sn in snaps)
     if 0 < presented < total:
       res.nt_keys.append("%s@%s" % (h, t))
